@@ -8,9 +8,11 @@ from .. import mir as M
 
 
 def run(res, facts):
-    format_token(res, facts)
+    if not getattr(res, "sem_ok", False):
+        # second opinion only (producer == specification, C08.S1, covers the token text of all 8 producers)
+        format_token(res, facts)
+        res.floor("C08.R6", 3)
     pae(res, facts)
-    res.floor("C08.R6", 3)
     res.floor("C08.R7", 2)
 
 
